@@ -60,7 +60,7 @@ Section C16_generic_pf.
        exists pts imp, snd (Avg.ask c s n commit hint) = Avg.Asked N pts imp).
   Proof.
     intros h n commit hint s. split.
-    - intros pts imp Hs. destruct (ask_returns N c s n commit hint pts imp Hs) as [-> Hn].
+    - intros pts imp Hs. pose proof (ask_returns N c s n commit hint pts imp Hs) as ->.
       destruct (ask_points_fresh N s n hint (inv_reach N c h)) as [H1 [H2 H3]].
       repeat split; auto; try (apply H3; assumption).
       intros -> p Hp. eapply ask_commits; eauto.
